@@ -51,6 +51,33 @@ Theorem C11_crash_prefix_consistent : forall objective signed designs ids tr c f
   (forall k r, lookup k db = Some r -> Crash.good_row objective signed k r).
 Proof. exact crash_prefix_consistent. Qed.
 
+(* Failed evaluations (objective raises TimeoutError / RuntimeError; Job.evaluate draws a replacement vector and
+   tries again): a job is any number of failed attempts [SStart i; SFail i v] followed by the successful one
+   and its synchronisation, with NO store statement in between.  Every interleaving of such jobs obeys the order ... *)
+Theorem C11_jobs_retry_merge_legal : forall objective signed designs db0 (jobs : list (Z * list (list jv))) tr,
+  NoDup (map fst jobs) ->
+  Crash.merge (map (fun iv => Crash.job_retry (fst iv) (snd iv)) jobs) tr ->
+  Crash.legal objective signed (Crash.init_state designs db0) tr = true.
+Proof. exact jobs_retry_merge_legal. Qed.
+
+(* ... so at every crash point - inside a retried objective call, between a failed attempt and its retry, around
+   every statement and commit - the recovered table has one row per id, a row for every id whose synchronisation had
+   returned, and only complete images: a design whose evaluation has failed so far has no row with the replacement vector *)
+Theorem C11_crash_prefix_consistent_retry : forall objective signed designs (jobs : list (Z * list (list jv))) tr c final pre,
+  NoDup (map fst jobs) ->
+  Crash.merge (map (fun iv => Crash.job_retry (fst iv) (snd iv)) jobs) tr -> incl final (map fst jobs) ->
+  Crash.prefix pre (tr ++ Crash.sync_all_steps c final) ->
+  let db := Crash.recovered (Crash.run_steps objective signed pre (Crash.init_state designs [])) in
+  NoDup (keys db) /\
+  (forall i, In (Crash.SReturn i) pre -> In i (keys db)) /\
+  (forall k r, lookup k db = Some r -> Crash.good_row objective signed k r).
+Proof. exact crash_prefix_consistent_retry. Qed.
+
+(* the order is needed: a trace with a store statement between a failed attempt and its retry is not legal *)
+Theorem C11_write_after_failed_attempt_illegal : forall objective signed st c i v tr,
+  Crash.legal objective signed st (SStart i :: SFail i v :: SExec c i :: tr) = false.
+Proof. exact write_after_failed_attempt_illegal. Qed.
+
 (* a complete image is readable by the view, with the row's id, and the costs it shows are the objective's
    value for the vector it shows (no partially written individual) *)
 Theorem C11_good_row_readable : forall objective signed k r, Crash.good_row objective signed k r ->
@@ -68,6 +95,9 @@ Print Assumptions C11_crash_legal_consistent.
 Print Assumptions C11_jobs_merge_legal.
 Print Assumptions C11_run_with_final_sync_all_legal.
 Print Assumptions C11_crash_prefix_consistent.
+Print Assumptions C11_jobs_retry_merge_legal.
+Print Assumptions C11_crash_prefix_consistent_retry.
+Print Assumptions C11_write_after_failed_attempt_illegal.
 Print Assumptions C11_good_row_readable.
 Print Assumptions C11_meta_survives.
 
@@ -117,4 +147,37 @@ Example C11_ex_reopen :
   keys (Crash.recovered st) = [1; 3] /\
   option_map (fun r => option_map (fun v => (v_state v, v_costs v)) (from_dict r)) (lookup 1 (Crash.recovered st))
     = Some (Some (JNull, JArr (ex_obj [JNum (NInt 10)]))).
+Proof. vm_compute. repeat split; reflexivity. Qed.
+
+(* failed attempts: design 1 fails twice (replacement vectors [11], then [12]) while design 2 is evaluated in
+   parallel; the process dies inside the third attempt of design 1: only design 2 has a row.  The complete run
+   stores design 1 with the vector that was evaluated in the end.  A write between the failed attempt and
+   the retry (not legal) would leave the replacement vector with the costs of nothing in the table. *)
+Definition ex_retry_trace : list Crash.step :=
+  [SStart 1; SStart 2; SFail 1 [JNum (NInt 11)]; SCosts 2; SStart 1; SSigned 2; SDone 2; SFail 1 [JNum (NInt 12)];
+   SExec 2 2; SCommit 2; SStart 1; SReturn 2; SCosts 1; SSigned 1; SDone 1; SExec 1 1; SCommit 1; SReturn 1].
+
+Example C11_ex_retry_merge :
+  Crash.merge (map (fun iv => Crash.job_retry (fst iv) (snd iv)) [(1, [[JNum (NInt 11)]; [JNum (NInt 12)]]); (2, [])]) ex_retry_trace.
+Proof.
+  unfold ex_retry_trace, Crash.job_retry, Crash.job. simpl.
+  repeat (first [refine (merge_pick [] _ _ _ _ _) | refine (merge_pick [_] _ _ _ _ _)]).
+  apply merge_done. intros t [<-|[<-|[]]]; reflexivity.
+Qed.
+
+Example C11_ex_retry_crash :
+  let st0 := Crash.init_state ex_designs [] in
+  let pre := firstn 12 ex_retry_trace in
+  let st := Crash.run_steps ex_obj ex_sg pre st0 in
+  Crash.legal ex_obj ex_sg st0 ex_retry_trace = true /\
+  keys (Crash.recovered st) = [2] /\ Crash.c_ret st = [2] /\
+  option_map (fun r => option_map (fun v => (v_vector v, v_costs v)) (from_dict r))
+             (lookup 1 (Crash.recovered (Crash.run_steps ex_obj ex_sg ex_retry_trace st0)))
+    = Some (Some (JArr [JNum (NInt 12)], JArr (ex_obj [JNum (NInt 12)]))) /\
+  (* the store written on the failure path: not legal, and the table then holds vector [11] with no costs *)
+  let bad := [SStart 1; SFail 1 [JNum (NInt 11)]; SExec 1 1; SCommit 1; SStart 1] in
+  Crash.legal ex_obj ex_sg st0 bad = false /\
+  option_map (fun r => option_map (fun v => (v_vector v, v_costs v)) (from_dict r))
+             (lookup 1 (Crash.recovered (Crash.run_steps ex_obj ex_sg bad st0)))
+    = Some (Some (JArr [JNum (NInt 11)], JArr [])).
 Proof. vm_compute. repeat split; reflexivity. Qed.
